@@ -37,6 +37,19 @@ func workerAlive() int {
 	return strings.Count(string(buf[:n]), "ConcurrentQueue).Start.func1")
 }
 
+// workerParked: the queue worker exists and is parked in its select (it has
+// nothing it could hand to a waiting consumer).
+func workerParked() bool {
+	buf := make([]byte, 1<<20)
+	n := runtime.Stack(buf, true)
+	for _, g := range strings.Split(string(buf[:n]), "\n\n") {
+		if strings.Contains(g, "ConcurrentQueue).Start.func1") {
+			return strings.Contains(g, "[select") || strings.Contains(g, "[chan receive")
+		}
+	}
+	return false
+}
+
 // stuckWitness: returns a goroutine dump if a producer is parked sending on
 // ChanIn while the queue worker is parked too (stable wait-for state).
 func stuckWitness(tag string) (bool, string) {
@@ -138,6 +151,8 @@ func runCase(r *evid.Run, cs int64, c caseCfg) {
 
 	var got []item
 	var recvAt []int64
+	lostEarly := false
+	_ = lostEarly
 	want := total
 	stopped := false
 	for len(got) < want {
@@ -146,7 +161,33 @@ func runCase(r *evid.Run, cs int64, c caseCfg) {
 			stopped = true
 			break
 		}
-		it := (<-q.ChanOut()).(item)
+		// Receive; if nothing arrives although every producer has returned from all
+		// its sends and the worker is parked (nothing in flight), the missing items
+		// are lost: stop waiting and let the offline checker report it.  Decided from
+		// state (sends completed + worker parked), observed on three ticks in a row.
+		var it item
+		arrived := false
+		for idle := 0; !arrived && idle < 3; {
+			select {
+			case v := <-q.ChanOut():
+				it, arrived = v.(item), true
+			case <-time.After(300 * time.Millisecond):
+				select {
+				case <-prodDone:
+					if _, _ = stuckWitness("none"); workerParked() {
+						idle++
+					} else {
+						idle = 0
+					}
+				default:
+					idle = 0
+				}
+			}
+		}
+		if !arrived {
+			lostEarly = true
+			break
+		}
 		got = append(got, it)
 		recvAt = append(recvAt, atomic.AddInt64(&clock, 1))
 		switch c.mode {
